@@ -49,6 +49,8 @@ func Spec() *run.Spec {
 			"every Load must equal the last save on its path incl. the library definition behind each material name; non-trivial iff a Load follows a re-save with other materials. " +
 			"Every ordinary read draws the reader kind (bytes.Reader, struct{io.Reader}, iotest.OneByteReader / HalfReader / DataErrReader, io.LimitReader, chunked, small bufio.Reader, os.File, io.Pipe), every ordinary write the sink kind (bytes.Buffer, small bufio.Writer, looping chunk wrapper, os.File). " +
 			"Mixed-form groups are planned: richer form first / last / in the middle / around a poorer middle / random, later faces reusing earlier tokens or not (flags mixed:*). " +
+			"large: case i carries an uninterrupted run of largeRuns[i mod 9] ∈ {1023, 1024, 1025, 2047, 2049, 4097, 8193, 20000, 70000} faces (no materials / one range / several long ranges / long ranges separated by zero-length ranges; attribute sets P, PN, PT, PNT in rotation; > 65 536 vertices for the two longest) " +
+			"through kind (i + i/9) mod 3: list write→read, generated large text load→save, or obj.Save / obj.SaveAll / obj.Load — same oracles. " +
 			"fault-sequences: one case = a history of 3–8 operations in one goroutine mixing complete write-read / load-save cases on good writers and readers with obj.WriteMeshes / obj.WriteMesh / obj.WriteMaterials to a writer that fails for good after k bytes " +
 			"(k inside the comment, v, vt/vn, g, usemtl, f lines or the last byte; refusing or partially accepting the failing call) and obj.ReadMesh from a reader that fails at a line boundary; a failing call must report an error, every good operation must pass its complete oracle whatever failed before; " +
 			"non-trivial iff a failure past the first line is followed by a good operation. " +
@@ -122,6 +124,12 @@ func Spec() *run.Spec {
 				}
 				return 1000
 			}, Run: fileHistories, Batch: 100, CPUBudgetS: 20},
+			{Name: "large", Cases: func(t string) int {
+				if t == "thorough" {
+					return 162
+				}
+				return 10
+			}, Run: large, Batch: 1, CPUBudgetS: 180},
 			{Name: "fault-sequences", Cases: func(t string) int {
 				if t == "thorough" {
 					return 40000
@@ -509,8 +517,13 @@ func checkLibrary(c *run.Ctx, res *run.Result, list []obj.ObjMesh, exp []*expMes
 // --- phase load-save --------------------------------------------------------------------
 
 func loadSave(c *run.Ctx) run.Result {
-	var res run.Result
 	text, d := genText(c.Rng, c.Tier)
+	return loadSaveText(c, text, d)
+}
+
+// loadSaveText is the load-save oracle for one valid text.
+func loadSaveText(c *run.Ctx, text string, d *textDesc) run.Result {
+	var res run.Result
 	res.Sig = d.sig()
 	res.Sample = map[string]any{"desc": d, "text": clip(text, 600)}
 	res.Nontrivial = d.Segments >= 2 && d.Usemtl >= 2
